@@ -413,6 +413,10 @@ def module_literal(mi, name: str) -> Optional[Term]:
                             if isinstance(tn, ast.Name):
                                 counts[tn.id] = counts.get(tn.id, 0) + 1
                                 cache[tn.id] = tv
+            elif isinstance(node, ast.AnnAssign) and isinstance(node.target, ast.Name) and node.value is not None:
+                # ORDERS: Dict[str, Order] = {...}
+                counts[node.target.id] = counts.get(node.target.id, 0) + 1
+                cache[node.target.id] = node.value
         for k in list(cache):
             if counts.get(k, 0) != 1:
                 del cache[k]
@@ -440,6 +444,18 @@ def module_literal(mi, name: str) -> Optional[Term]:
                 and conv(n.func) == ("mod", "struct.Struct"):
             # a precompiled record layout: an immutable value determined by its format string
             return ("call", ("mod", "struct.Struct"), (("const", n.args[0].value),), ())
+        if isinstance(n, ast.Call) and isinstance(n.func, ast.Name) and n.func.id in mi.classes \
+                and not any(isinstance(a, ast.Starred) for a in n.args) and all(k.arg for k in n.keywords):
+            # a record of a NamedTuple class of this module built from constants: {field: value} (read by attribute)
+            cnode = mi.classes[n.func.id].node
+            if any(unparse(b).split(".")[-1] == "NamedTuple" for b in cnode.bases):
+                fields = [st.target.id for st in cnode.body if isinstance(st, ast.AnnAssign) and isinstance(st.target, ast.Name)]
+                vals = dict(zip(fields, n.args))
+                vals.update({k.arg: k.value for k in n.keywords})
+                if set(vals) == set(fields) and len(n.args) <= len(fields):
+                    items = [(("const", f), conv(vals[f])) for f in fields]
+                    if all(v is not None for _, v in items):
+                        return ("dict", tuple(items))
         if isinstance(n, ast.Dict) and len(n.keys) <= 8 and all(k is not None for k in n.keys):
             # a module-level dispatch table {literal: imported function / literal}
             items = [(conv(k), conv(v)) for k, v in zip(n.keys, n.values)]
@@ -742,6 +758,96 @@ def _matrix_rooted(t) -> bool:
         t = t[1]
         n += 1
     return n >= 1 and ((t[0] == "attr" and t[2] == "pre_distances") or (t[0] == "param" and t[1] == "pre_distances"))
+
+
+def named_tuple_fields(repo: Repo, cname: str):
+    """[(field, default expression or None)] of a `class X(NamedTuple)` of the library, else None."""
+    key = ("named_tuple_fields", cname)
+    if key not in repo.memo:
+        out = None
+        for mi in repo.modules.values():
+            ci = mi.classes.get(cname)
+            if ci is not None and any(unparse(b).split(".")[-1] == "NamedTuple" for b in ci.node.bases):
+                out = [(st.target.id, st.value) for st in ci.node.body if isinstance(st, ast.AnnAssign) and isinstance(st.target, ast.Name)]
+                out = (mi.name, out)
+        repo.memo[key] = out
+    return None if repo.memo[key] is None else repo.memo[key][1]
+
+
+def all_named_tuples(repo: Repo):
+    key = ("all_named_tuples",)
+    if key not in repo.memo:
+        out = []
+        for mi in repo.modules.values():
+            for cname in mi.classes:
+                f = named_tuple_fields(repo, cname)
+                if f is not None:
+                    out.append([n for n, _ in f])
+        repo.memo[key] = out
+    return repo.memo[key]
+
+
+def record_items(repo: Repo, module: str, it: ast.AST) -> Optional[ast.Tuple]:
+    """`dataclasses.asdict(R).items()` / `vars(R).items()` for a module-level `R = Rec()` built without arguments from a frozen
+    dataclass (or NamedTuple `R._asdict().items()`) whose fields all carry defaults: the literal tuple of (name, default) pairs,
+    in field order. `default_factory=list` stands for a fresh `[]` (asdict copies containers per call)."""
+    if not (isinstance(it, ast.Call) and isinstance(it.func, ast.Attribute) and it.func.attr == "items" and not it.args
+            and not it.keywords and isinstance(it.func.value, ast.Call)):
+        return None
+    inner = it.func.value
+    fn = unparse(inner.func)
+    rec = None
+    if fn in ("dataclasses.asdict", "asdict", "vars") and len(inner.args) == 1 and not inner.keywords and isinstance(inner.args[0], ast.Name):
+        rec = inner.args[0].id
+    elif isinstance(inner.func, ast.Attribute) and inner.func.attr == "_asdict" and isinstance(inner.func.value, ast.Name) and not inner.args:
+        rec = inner.func.value.id
+    mi = repo.modules.get(module)
+    if rec is None or mi is None:
+        return None
+    binds = [st for st in mi.tree.body if isinstance(st, ast.Assign) and any(isinstance(t, ast.Name) and t.id == rec for t in st.targets)]
+    if len(binds) != 1 or not (isinstance(binds[0].value, ast.Call) and isinstance(binds[0].value.func, ast.Name)
+                               and not binds[0].value.args and not binds[0].value.keywords):
+        return None
+    cname = binds[0].value.func.id
+    cls = [st for st in mi.tree.body if isinstance(st, ast.ClassDef) and st.name == cname]
+    if len(cls) != 1:
+        return None
+    cls = cls[0]
+    deco = [unparse(d) for d in cls.decorator_list]
+    frozen = any(d.replace(" ", "") in ("dataclasses.dataclass(frozen=True)", "dataclass(frozen=True)") for d in deco)
+    named = any(unparse(b).split(".")[-1] == "NamedTuple" for b in cls.bases)
+    if not (frozen or named) or (fn == "vars" and not frozen):
+        return None
+    pairs = []
+    for st in cls.body:
+        if isinstance(st, ast.Expr) and isinstance(st.value, ast.Constant):
+            continue
+        if not (isinstance(st, ast.AnnAssign) and isinstance(st.target, ast.Name) and st.value is not None):
+            return None
+        v = st.value
+        if isinstance(v, ast.Call) and unparse(v.func) in ("dataclasses.field", "field") and not v.args and len(v.keywords) == 1:
+            kw = v.keywords[0]
+            if kw.arg == "default":
+                v = kw.value
+            elif kw.arg == "default_factory" and isinstance(kw.value, ast.Name) and kw.value.id in ("list", "dict"):
+                v = ast.List(elts=[], ctx=ast.Load()) if kw.value.id == "list" else ast.Dict(keys=[], values=[])
+                if fn == "vars":
+                    # `vars(R)` hands out the record's own container, the same object on every call
+                    v = ast.Attribute(value=ast.Name(id=rec, ctx=ast.Load()), attr=st.target.id, ctx=ast.Load())
+            else:
+                return None
+        elif isinstance(v, ast.Call):
+            return None
+        pairs.append(ast.Tuple(elts=[ast.Constant(value=st.target.id), v], ctx=ast.Load()))
+    if not pairs or len(pairs) > 16:
+        return None
+    out = ast.Tuple(elts=pairs, ctx=ast.Load())
+    ast.copy_location(out, it)
+    for n in ast.walk(out):
+        if not hasattr(n, "lineno"):
+            ast.copy_location(n, it)
+    ast.fix_missing_locations(out)
+    return out
 
 
 def class_constant(repo: Repo, cls: str, name: str):
@@ -1576,6 +1682,13 @@ class Walker:
         `yield E` replaced by `T = E; body` (generator locals renamed apart).  None when the shape is outside that."""
         if not isinstance(s.iter, ast.Call) or s.orelse or any(isinstance(a, ast.Starred) for a in s.iter.args):
             return None
+        counter = None
+        if isinstance(s.iter.func, ast.Name) and s.iter.func.id == "enumerate" and "enumerate" not in env and len(s.iter.args) == 1 \
+                and not s.iter.keywords and isinstance(s.iter.args[0], ast.Call) and isinstance(s.target, ast.Tuple) \
+                and len(s.target.elts) == 2 and isinstance(s.target.elts[0], ast.Name):
+            # `for i, T in enumerate(gen(args))`: i counts the yields (see below)
+            counter = s.target.elts[0].id
+            s = ast.copy_location(ast.For(target=s.target.elts[1], iter=s.iter.args[0], body=s.body, orelse=[], lineno=s.lineno), s)
         f = s.iter.func
         cur = self.fnstack[-1]
         fi = None
@@ -1636,6 +1749,43 @@ class Walker:
         import copy as _copy
         body = [Ren().visit(_copy.deepcopy(st)) for st in g.body]
         outer = self
+        bind_counter = []
+        if counter is not None:
+            # the number of the yield is the position counter of the generator's loop when there is one yield, placed
+            # unconditionally in the body of the generator's only loop (which neither skips nor leaves a round)
+            loops_g = [st for st in body if isinstance(st, ast.For)]
+
+            def per_round(stmts):  # yields on every path through the statements (None: paths disagree)
+                total = 0
+                for st in stmts:
+                    if isinstance(st, ast.Expr) and isinstance(st.value, ast.Yield):
+                        total += 1
+                    elif isinstance(st, ast.If):
+                        a, b = per_round(st.body), per_round(st.orelse)
+                        if a is None or a != b:
+                            return None
+                        total += a
+                    elif any(isinstance(n, ast.Yield) for n in ast.walk(st)):
+                        return None
+                return total
+            if len(loops_g) != 1 or any(isinstance(n, (ast.While, ast.Break, ast.Continue)) for st in body for n in ast.walk(st)) \
+                    or sum(1 for st in body for n in ast.walk(st) if isinstance(n, ast.For)) != 1 or loops_g[0].orelse \
+                    or per_round(loops_g[0].body) != 1 or per_round([st for st in body if st is not loops_g[0]]) != 0:
+                return None
+            lp = loops_g[0]
+            it = lp.iter
+            if isinstance(it, ast.Call) and isinstance(it.func, ast.Name) and it.func.id == "enumerate" and len(it.args) == 1 \
+                    and not it.keywords and isinstance(lp.target, ast.Tuple) and len(lp.target.elts) == 2 \
+                    and isinstance(lp.target.elts[0], ast.Name):
+                kname = lp.target.elts[0].id
+            else:
+                kname = "k" + suffix
+                lp.target = ast.copy_location(ast.Tuple(elts=[ast.Name(id=kname, ctx=ast.Store()), lp.target], ctx=ast.Store()), lp.target)
+                lp.iter = ast.copy_location(ast.Call(func=ast.Name(id="enumerate", ctx=ast.Load()), args=[it], keywords=[]), it)
+                ast.fix_missing_locations(lp)
+            bind_counter = [ast.copy_location(ast.Assign(targets=[ast.Name(id=counter, ctx=ast.Store())],
+                                                         value=ast.Name(id=kname, ctx=ast.Load()), lineno=s.lineno), s)]
+            ast.fix_missing_locations(bind_counter[0])
 
         class Yld(ast.NodeTransformer):
             def generic_visit(self, node):
@@ -1647,6 +1797,7 @@ class Walker:
                             if isinstance(st, ast.Expr) and isinstance(st.value, ast.Yield):
                                 out.append(ast.copy_location(ast.Assign(targets=[s.target], value=st.value.value,
                                                                         lineno=st.lineno), st))
+                                out.extend(bind_counter)
                                 out.extend(s.body)
                             else:
                                 out.append(self.generic_visit(st) if isinstance(st, ast.AST) else st)
@@ -1687,6 +1838,10 @@ class Walker:
         gen = self._generator_loop(s, env)
         if gen is not None:
             return True if gen[1] is True else None
+        rec = record_items(self.repo, (self.fnstack[-1] if self.fnstack else self.entry).module, s.iter)
+        if rec is not None:
+            # a loop over the fields of a constant record: one copy of the body per (name, default) pair
+            s = ast.copy_location(ast.For(target=s.target, iter=rec, body=s.body, orelse=s.orelse, lineno=s.lineno), s)
         # `for k, v in src.items(): dst[k] = v` is `dst.update(src)`
         if isinstance(s.target, ast.Tuple) and len(s.target.elts) == 2 and all(isinstance(x, ast.Name) for x in s.target.elts) \
                 and isinstance(s.iter, ast.Call) and isinstance(s.iter.func, ast.Attribute) and s.iter.func.attr == "items" \
@@ -2056,6 +2211,24 @@ class Walker:
             l, r = sorted([l, r], key=tkey)
         return ("bin", op, l, r)
 
+    def _record_attr(self, base: Term, e: ast.Attribute) -> Optional[Term]:
+        """A field of a NamedTuple record by name (the position every record class of that size gives the name), or a
+        read-only property of the one record class of that size that has it."""
+        posn = {names.index(e.attr) for names in all_named_tuples(self.repo) if len(names) == len(base[1]) and e.attr in names}
+        if len(posn) == 1:
+            return base[1][posn.pop()]
+        if posn:
+            return None
+        props = []
+        for mi in self.repo.modules.values():
+            for cname, ci in mi.classes.items():
+                f = named_tuple_fields(self.repo, cname)
+                if f is not None and len(f) == len(base[1]) and e.attr in ci.getters and e.attr not in ci.setters:
+                    props.append(ci.getters[e.attr])
+        if len(props) == 1 and props[0] not in self.fnstack and len(self.fnstack) <= self.max_depth:
+            return self.inline_call(props[0], base, (), (), e)
+        return None
+
     def module_imports(self) -> Dict[str, str]:
         return self.repo.modules[self.fnstack[-1].module].imports
 
@@ -2068,13 +2241,22 @@ class Walker:
             if e.id in env:
                 v = env[e.id]
                 # a value merged from an earlier `if c:` read again under the same test is that branch's value
+                fs = None
                 while v[0] == "sel" and self.guards:
                     if (v[1], True) in self.guards:
                         v = v[2]
                     elif (v[1], False) in self.guards:
                         v = v[3]
                     else:
-                        break
+                        # ... also when the test is one conjunct of a dominating `if a and b:`
+                        if fs is None:
+                            fs = set(facts(tuple(self.guards)))
+                        if v[1] in fs:
+                            v = v[2]
+                        elif mk_not(v[1]) in fs:
+                            v = v[3]
+                        else:
+                            break
                 return v
             imps = self.module_imports()
             if e.id in imps:
@@ -2158,6 +2340,23 @@ class Walker:
                 if e.attr.lstrip("_") in ext and self.fnstack[-1].name != "__init__" \
                         and not any(d.endswith(".setter") for d in self.fnstack[-1].decorators):
                     return ext[e.attr.lstrip("_")]
+            if base[0] == "sel" and base[2][0] == "tuple" and base[3][0] == "tuple" and isinstance(e.ctx, ast.Load):
+                # a field of a record built in one of two ways: the field of either
+                a, b = self._record_attr(base[2], e), self._record_attr(base[3], e)
+                if a is not None and b is not None:
+                    if a[0] == "sel" and a[1] == base[1]:
+                        a = a[2]
+                    if b[0] == "sel" and b[1] == base[1]:
+                        b = b[3]
+                    return a if a == b else ("sel", base[1], a, b)
+            if base[0] == "tuple" and isinstance(e.ctx, ast.Load):
+                v = self._record_attr(base, e)
+                if v is not None:
+                    return v
+            if base[0] == "dict" and isinstance(e.ctx, ast.Load):
+                hit = [v for k, v in base[1] if k == ("const", e.attr)]
+                if len(hit) == 1:
+                    return hit[0]  # a field of a constant record
             t = ("attr", base, e.attr)
             return self.subst.get(t, t)
         if isinstance(e, ast.Subscript):
@@ -2215,7 +2414,8 @@ class Walker:
                     and left[1][1] in (("builtin", "enumerate"), ("builtin", "zip")))
                 if o in ("is", "is not") and nonish(right) and counter:
                     parts.append(("const", o == "is not"))  # a loop counter is a number, never None
-                elif o in ("is", "is not") and nonish(right) and (nonish(left) or left[0] in ("alloc", "new", "tuple", "dict")):
+                elif o in ("is", "is not") and nonish(right) and (nonish(left) or left[0] in ("alloc", "new", "tuple", "dict")
+                                                                   or (left[0] != "sel" and never_none(left))):
                     parts.append(("const", nonish(left) == (o == "is")))
                 elif o in ("==", "!=") and {left[0], right[0]} == {"K", "const"} and self._k_value(left, right) is not None:
                     # a library constant compared with a literal: decided by the constant's value (NIL == 0 is False)
@@ -2238,6 +2438,21 @@ class Walker:
                 else:
                     vals.append(t)
             kind = "and" if isinstance(e.op, ast.And) else "or"
+            # short circuit: a later operand is evaluated only when the earlier ones held (`and`) / failed (`or`), so a choice
+            # it makes on one of them is decided: `q is not None and cost[q] < x` with q = None if c else p[k] reads cost[p[k]]
+            known: Dict[Term, bool] = {}
+            for k, t in enumerate(vals):
+                if known and any(u[0] == "sel" and u[1] in known for u in subterms(t)):
+                    def res(x):
+                        if not isinstance(x, tuple) or not x:
+                            return x
+                        if x[0] == "sel" and x[1] in known:
+                            return res(x[2] if known[x[1]] else x[3])
+                        return tuple(res(y) if isinstance(y, tuple) else y for y in x)
+                    t = vals[k] = res(t)
+                if t[0] in ("cmp", "not", "call"):
+                    known[t] = kind == "and"
+                    known[mk_not(t)] = kind != "and"
             neutral, absorbing = (("const", True), ("const", False)) if kind == "and" else (("const", False), ("const", True))
             if absorbing in vals:
                 return absorbing
@@ -2258,6 +2473,15 @@ class Walker:
                     return mk_ext("min", [a, b])
             if c[0] == "const" and isinstance(c[1], bool):
                 return a if c[1] else b
+            # an arm that chooses on the same condition again is already decided: `a if c else (x if c else b)` is `a if c else b`
+            if a[0] == "sel" and a[1] == c:
+                a = a[2]
+            elif a[0] == "sel" and a[1] == mk_not(c):
+                a = a[3]
+            if b[0] == "sel" and b[1] == c:
+                b = b[3]
+            elif b[0] == "sel" and b[1] == mk_not(c):
+                b = b[2]
             if a == b:
                 return a
             return nan_identity(("sel", c, a, b))
@@ -2500,6 +2724,25 @@ class Walker:
         if fn == ("builtin", "len") and len(args) == 1 and not kwargs and args[0][0] == "listcomp" \
                 and len(args[0][2]) == 1 and not args[0][2][0][2]:
             args = (args[0][2][0][0],)
+        # rec._replace(field=v) on a NamedTuple record known field by field: the record with that field exchanged
+        if fn[0] == "attr" and fn[2] == "_replace" and fn[1][0] == "tuple" and not args and kwargs and all(k != "**" for k, _ in kwargs):
+            cands = [names for names in all_named_tuples(self.repo) if len(names) == len(fn[1][1]) and all(k in names for k, _ in kwargs)]
+            if cands and all({k: c0.index(k) for k, _ in kwargs} == {k: cands[0].index(k) for k, _ in kwargs} for c0 in cands):
+                items = list(fn[1][1])
+                for k, v in kwargs:
+                    items[cands[0].index(k)] = v
+                return ("tuple", tuple(items))
+        # a method of the one NamedTuple record class of that size that has it: its body, with self the record
+        if fn[0] == "attr" and fn[1][0] == "tuple" and not fn[2].startswith("_"):
+            meths = []
+            for mi_r in self.repo.modules.values():
+                for cname_r, ci_r in mi_r.classes.items():
+                    f_r = named_tuple_fields(self.repo, cname_r)
+                    if f_r is not None and len(f_r) == len(fn[1][1]) and fn[2] in ci_r.methods:
+                        meths.append(ci_r.methods[fn[2]])
+            if len(meths) == 1 and meths[0] not in self.fnstack and len(self.fnstack) <= self.max_depth \
+                    and not any(d.split("(")[0].split(".")[-1] in ("staticmethod", "classmethod") for d in meths[0].decorators):
+                return self.inline_call(meths[0], fn[1], args, kwargs, e)
         # vars(x) is x.__dict__
         if fn == ("builtin", "vars") and len(args) == 1 and not kwargs:
             return ("attr", args[0], "__dict__")
@@ -2525,6 +2768,18 @@ class Walker:
         # constructors of repository classes
         if fn[0] == "mod":
             cname = fn[1].split(".")[-1]
+            if fn[1].startswith("opfython") and self.repo.has_class(cname) and named_tuple_fields(self.repo, cname) is not None \
+                    and not any(a[0] == "star" for a in args) and not any(k == "**" for k, _ in kwargs):
+                # a NamedTuple record is the tuple of its fields (unpacked, indexed or read by name alike)
+                fields = named_tuple_fields(self.repo, cname)
+                names = [f for f, _ in fields]
+                vals = dict(zip(names, args))
+                vals.update({k: v for k, v in kwargs if k in names})
+                for f, dflt in fields:
+                    if f not in vals and dflt is not None:
+                        vals[f] = self._ev_in_module(dflt, self.repo.modules[self.repo.memo[("named_tuple_fields", cname)][0]])
+                if len(args) <= len(names) and set(vals) == set(names):
+                    return ("tuple", tuple(vals[f] for f in names))
             if fn[1].startswith("opfython") and self.repo.has_class(cname):
                 self._site += 1
                 t = ("new", cname, args, kwargs, self._site)
@@ -3175,6 +3430,10 @@ LIBRARY_CONSTANTS = ("EPSILON", "FLOAT_MAX", "NIL", "WHITE", "GRAY", "BLACK", "I
 ARRAY_VIEWS = ("ravel", "flatten", "reshape", "astype", "copy", "squeeze", "tolist")
 
 
+NODE_NUMBER_FIELDS = ("idx", "pred", "root", "cost", "density", "radius", "status", "relevant", "n_plateaus",
+                      "label", "predicted_label", "cluster_label")
+
+
 def never_none(t: Term) -> bool:
     """A value that is an object of this walk or the result of a numpy constructor / array method: not None."""
     if t[0] in ("alloc", "new", "tuple", "dict", "list", "listcomp"):
@@ -3183,6 +3442,18 @@ def never_none(t: Term) -> bool:
         return True
     if t[0] == "call" and t[1][0] == "attr" and t[1][2] in ARRAY_VIEWS:
         return never_none(t[1][1])
+    if t[0] == "call" and t[1][0] == "attr" and t[1][2] == "item" and not t[2] and not t[3] and t[1][1][0] == "idx":
+        return True  # `I[i].item()`: the Python number held in an index / label array
+    if t[0] == "sel":
+        return never_none(t[2]) and never_none(t[3])
+    if t[0] == "attr" and t[2] in NODE_NUMBER_FIELDS and Walker._is_node_term(t[1]):
+        return True  # a numeric field of a node: its setter accepts numbers only (rule PROP-setter)
+    if _matrix_rooted(t):
+        return True  # a row / an entry of the pre-computed matrix
+    if t[0] == "call" and t[1][0] == "attr" and t[1][2] == "distance_fn" and len(t[2]) == 2:
+        return True  # the configured dissimilarity of two samples: a number (every registered metric returns one)
+    if t[0] == "idx" and t[1][0] == "attr" and t[1][1] == ("self",) and t[1][2] in HEAP_ARRAYS:
+        return True  # an entry of one of the heap's arrays: a number (rule H-init decides what they are filled with)
     return False
 
 
